@@ -163,8 +163,25 @@ func (x *Exec) oblige(st *State, kind, name, label string, goal *Term, pos token
 		// still counted: trivially discharged obligations are recorded so that
 		// a later change making them non-trivial keeps the same name.
 	}
+	assume := make([]*Term, 0, len(st.assume))
+	seenA := map[*Term]bool{}
+	keepAlloc := len(x.allocd) > 0 || mentionsAllocFrontier(goal)
+	for _, a := range st.assume {
+		if seenA[a] {
+			continue
+		}
+		seenA[a] = true
+		if !keepAlloc && mentionsAllocFrontier(a) {
+			// allocation-frontier facts only matter once something was allocated
+			a = dropAllocConjuncts(a)
+			if a == nil {
+				continue
+			}
+		}
+		assume = append(assume, a)
+	}
 	o := &Obligation{Unit: x.unit.Key, Name: x.unit.Short + "." + name, Kind: kind, Label: label,
-		Assume: append([]*Term(nil), st.assume...), Goal: goal, Props: x.curProps, Bounded: x.bounded,
+		Assume: assume, Goal: goal, Props: x.curProps, Bounded: x.bounded,
 		Inputs: x.inputs, Imprec: append([]string(nil), st.imprec...)}
 	if pos.IsValid() && x.pkg != nil {
 		p := x.pkg.Fset.Position(pos)
@@ -1304,6 +1321,7 @@ func (x *Exec) markContractMod(m *modSet, c *Contract, fn *types.Func, call *ast
 }
 
 func (x *Exec) havoc(h *State, m *modSet) {
+	x.bumpFrontier(h)
 	// deterministic order
 	var vs []*types.Var
 	for v := range m.vars {
